@@ -49,6 +49,12 @@ def parse (toks : List String) : Option Op :=
   | ["commit", sg, o] => do pure (.commit (← signers? sg) (← addr? o))
   | ["updcfg", sg, o, a, b, c, d] => do
     pure (.updcfg (← signers? sg) (← addr? o) { blockMsgDelay := ← nat? a, hashMsgDelay := ← nat? b, peerHandshakeTimeout := ← nat? c, maxBlockChangeView := ← nat? d })
+  | ["rdeposit", sg, rel, chain, h, extra, id, ccid, cont] => do
+    let _ ← nat? h
+    let _ ← Hex.ofHex extra
+    let c ← if ccid == "none" then some none else (Hex.ofHex ccid).map some
+    let k ← if cont == "ok" then some true else if cont == "fail" then some false else none
+    pure (.deposit (← signers? sg) (← addr? rel) (← nat? chain) (← Hex.ofHex id) c k)
   | [k, sg, a, id, router, name, btw, ccmc, extra] => do
     let r : SideChain := { addr := ← addr? a, chainId := ← nat? id, router := ← nat? router, name := ← Hex.ofHex name, btw := ← nat? btw,
                            ccmc := ← Hex.ofHex ccmc, extra := ← Hex.ofHex extra }
@@ -57,7 +63,7 @@ def parse (toks : List String) : Option Op :=
     let _ ← nat? h
     let _ ← Hex.ofHex extra
     let c ← if ccid == "none" then some none else (Hex.ofHex ccid).map some
-    pure (.deposit (← signers? sg) (← addr? rel) (← nat? chain) (← Hex.ofHex id) c)
+    pure (.deposit (← signers? sg) (← addr? rel) (← nat? chain) (← Hex.ofHex id) c true)
   | ["admit", sg] => do pure (.submit (← signers? sg))
   | ["refresh", o] => if o == "-" then some (.refresh none) else do pure (.refresh (some (← addr? o)))
   | ["restart"] => some .restart
@@ -169,11 +175,12 @@ def outcome (s : State) (op : Op) (dry : Bool) : State × String :=
 
 def dryable : List String → Bool
   | [] => false
-  | t :: _ => !(["key", "height", "time", "dump", "dry", "admit", "refresh", "restart"].contains t)
+  | t :: _ => !(["key", "height", "time", "dump", "dry", "admit", "refresh", "restart", "assetbind"].contains t)
 
 def step (s : State) (toks : List String) : State × String :=
   match toks with
   | ["dump"] => (s, dump s)
+  | ["assetbind", _, _, _, _] => (s, "ok")
   | "dry" :: rest =>
     if !dryable rest then (s, "bad-op") else
     match parse rest with
